@@ -61,7 +61,7 @@ func c15GenNQDoc(r *hx.Rand, nq bool) []byte {
 				ln = ln[:i] + fmt.Sprintf(hx.Pick(r, []string{"\\u%04x", "\\u%04X", "\\U%08x"}), ln[i]) + ln[i+1:]
 			}
 		}
-		ln = strings.Replace(ln, " ", hx.Pick(r, []string{" ", "\t", "  "}), 1)
+		ln = strings.Replace(ln, " ", hx.Pick(r, []string{" ", "\t", "  ", ""}), 1) // the subject needs no white space after it
 		sb.WriteString(ln + hx.Pick(r, []string{" .", ".", " . # trailing", "\t.", " # before the dot\n.", "#c\r\n .", "# cr ends a comment\r."}))
 		if i < len(lines)-1 || r.Chance(2, 3) {
 			sb.WriteString(hx.Pick(r, []string{"\n", "\n", "\r\n", "\n\n", "\r", "\r\r\n"}))
